@@ -153,6 +153,24 @@ func (vc *VC) execInstrs(b *ssa.BasicBlock, st *State) {
 					if vc.isNoop(&d.Call) {
 						continue
 					}
+					inLoop := false
+					for _, l := range vc.loops {
+						if l.blocks[d.Block()] {
+							inLoop = true
+						}
+					}
+					if !inLoop {
+						// registered on one branch only: the call runs exactly when that branch was taken
+						cond := vc.deferReach[d]
+						st2 := st.clone()
+						saved := vc.reach[b]
+						vc.reach[b] = andTerms([]string{saved, cond})
+						vc.execCall(nil, &d.Call, st2, nil)
+						vc.reach[b] = saved
+						m := vc.mergeStates([]inEdge{{cond: cond, st: st2}, {cond: "true", st: st}})
+						st.heaps, st.alloc = m.heaps, m.alloc
+						continue
+					}
 					if !vc.havocDeferred(&d.Call, st) {
 						vc.fail("conditionally executed defer of a call with effects")
 					}
@@ -172,6 +190,9 @@ func (vc *VC) execInstrs(b *ssa.BasicBlock, st *State) {
 		case *ssa.MakeChan:
 			c := vc.fresh("chan", vc.d.sortOf(x.Type()))
 			vc.assume(fmt.Sprintf("(not (= %s %s))", c, vc.d.zero(x.Type())))
+			vc.d.declFun("chancap", "(declare-fun chancap (Int) Int)")
+			vc.safety("makechan", fmt.Sprintf("(>= %s 0)", vc.val(x.Size)), "make(chan) with a negative size panics")
+			vc.assume(fmt.Sprintf("(= (chancap %s) %s)", c, vc.val(x.Size)))
 			vc.setVal(x, c)
 		case *ssa.If:
 			c := vc.val(x.Cond)
@@ -901,6 +922,174 @@ func (vc *VC) execMakeClosure(x *ssa.MakeClosure, st *State) {
 	}
 	vc.vals[x] = id
 	vc.clos[x] = ci
+	if sp := vc.w.specFor(fn); sp != nil && len(sp.Captures) > 0 {
+		binds := map[string]SVal{}
+		for i, fv := range fn.FreeVars {
+			binds[fv.Name()] = SVal{t: ci.terms[i], typ: fv.Type(), sort: "Int", cellOf: derefType(fv.Type())}
+		}
+		env := &Env{vc: vc, cur: st, old: st, vars: binds, noFnNames: true, pkg: vc.specPkg(sp)}
+		reach := vc.reach[vc.curBlock]
+		for i, c := range sp.Captures {
+			vc.checkStableCapture(c.E, fn, x)
+			f := env.evalBool(c.E)
+			env.flushSide(reach)
+			vc.oblige("closure["+fn.Name()+"].captures", labelOr(c.Name, i), reach, f, c.Src)
+		}
+	}
+}
+
+// checkStableCapture: a 'captures requires' clause is proved once, where the closure is created, and assumed whenever
+// the closure runs. That is sound only if it cannot change in between: it may mention constants, len/cap and captured
+// variables that are assigned exactly once (before the closure is created) and by no closure.
+func (vc *VC) checkStableCapture(e Expr, fn *ssa.Function, mc *ssa.MakeClosure) {
+	var walk func(e Expr)
+	walk = func(e Expr) {
+		switch n := e.(type) {
+		case *EInt, *EBool, *EStr, nil:
+		case *EUnary:
+			walk(n.X)
+		case *EBinary:
+			walk(n.X)
+			walk(n.Y)
+		case *ECall:
+			if sel, ok := n.Fun.(*ESelect); ok && len(n.Args) == 0 {
+				// x.M() for a captured interface value x and a method M whose contract is 'pure' (a function of the value)
+				if xid, ok := sel.X.(*EIdent); ok {
+					for _, fv := range fn.FreeVars {
+						if fv.Name() != xid.Name {
+							continue
+						}
+						if named, ok := fv.Type().Underlying().(*types.Pointer).Elem().(*types.Named); ok && named.Obj().Pkg() != nil {
+							if sp := vc.w.funcSpecs["iface:"+named.Obj().Pkg().Path()+"."+named.Obj().Name()+"."+sel.Name]; sp != nil && sp.Pure {
+								walk(sel.X)
+								return
+							}
+						}
+					}
+				}
+			}
+			id, ok := n.Fun.(*EIdent)
+			if !ok || (id.Name != "len" && id.Name != "cap") {
+				vc.fail("contract: 'captures requires' of %s may only use len/cap, operators, constants and captured variables", fn.Name())
+			}
+			for _, a := range n.Args {
+				walk(a)
+			}
+		case *EIdent:
+			if n.Name == "nil" || n.Name == "true" || n.Name == "false" {
+				return
+			}
+			if _, ok := vc.w.consts[n.Name]; ok {
+				return
+			}
+			for i, fv := range fn.FreeVars {
+				if fv.Name() != n.Name {
+					continue
+				}
+				if !writeOnce(mc.Bindings[i], mc) {
+					vc.fail("contract: 'captures requires' of %s mentions %s, which is assigned more than once or after the closure is created", fn.Name(), n.Name)
+				}
+				return
+			}
+			vc.fail("contract: 'captures requires' of %s mentions %s, which is not a captured variable", fn.Name(), n.Name)
+		default:
+			vc.fail("contract: 'captures requires' of %s may only use len/cap, operators, constants and captured variables", fn.Name())
+		}
+	}
+	walk(e)
+}
+
+// writeOnce: the captured cell is a local of the creating function with a single store, which dominates the
+// creation of the closure, and no closure of the creating function stores to it.
+func writeOnce(cell ssa.Value, mc *ssa.MakeClosure) bool {
+	if fv, ok := cell.(*ssa.FreeVar); ok {
+		// the creating function is itself a closure that captured the variable: nobody here stores to it, and it
+		// was write-once where that closure was created
+		g := fv.Parent()
+		if storesTo(g, fv) || g.Parent() == nil {
+			return false
+		}
+		k := -1
+		for i, v := range g.FreeVars {
+			if v == fv {
+				k = i
+			}
+		}
+		found := false
+		for _, b := range g.Parent().Blocks {
+			for _, in := range b.Instrs {
+				if mc2, ok := in.(*ssa.MakeClosure); ok && mc2.Fn == ssa.Value(g) {
+					found = true
+					if k < 0 || !writeOnce(mc2.Bindings[k], mc2) {
+						return false
+					}
+				}
+			}
+		}
+		return found
+	}
+	a, ok := cell.(*ssa.Alloc)
+	if !ok {
+		return false
+	}
+	stores := 0
+	for _, r := range *a.Referrers() {
+		switch y := r.(type) {
+		case *ssa.Store:
+			if y.Addr != a {
+				return false // the address itself is stored somewhere
+			}
+			stores++
+			if y.Block() != mc.Block() && !y.Block().Dominates(mc.Block()) {
+				return false
+			}
+			if y.Block() == mc.Block() {
+				before := false
+				for _, in := range y.Block().Instrs {
+					if in == y {
+						before = true
+					}
+					if in == ssa.Instruction(mc) {
+						break
+					}
+				}
+				if !before {
+					return false
+				}
+			}
+		case *ssa.MakeClosure:
+			f2 := y.Fn.(*ssa.Function)
+			for i, b := range y.Bindings {
+				if b == ssa.Value(a) && storesTo(f2, f2.FreeVars[i]) {
+					return false
+				}
+			}
+		case *ssa.UnOp, *ssa.DebugRef:
+		default:
+			return false
+		}
+	}
+	return stores == 1
+}
+
+func storesTo(f *ssa.Function, fv *ssa.FreeVar) bool {
+	for _, r := range *fv.Referrers() {
+		switch y := r.(type) {
+		case *ssa.Store:
+			return true
+		case *ssa.MakeClosure:
+			f2 := y.Fn.(*ssa.Function)
+			for i, b := range y.Bindings {
+				if b == ssa.Value(fv) && storesTo(f2, f2.FreeVars[i]) {
+					return true
+				}
+			}
+		case *ssa.UnOp, *ssa.DebugRef:
+		default:
+			return true
+		}
+	}
+	return false
 }
 
 // mapWritesInLoop reports whether the loop whose header contains the Next instruction may insert into / delete from
@@ -1142,6 +1331,24 @@ func (vc *VC) chanInvOf(ch ssa.Value) *InvDef {
 	if !ok || u.Op != token.MUL {
 		return nil
 	}
+	// a local channel variable shared with closures: chaninv <outermost function>.<variable>(v)
+	vname := ""
+	switch y := u.X.(type) {
+	case *ssa.FreeVar:
+		vname = y.Name()
+	case *ssa.Alloc:
+		vname = y.Comment
+	}
+	if vname != "" {
+		top := u.Parent()
+		for top.Parent() != nil {
+			top = top.Parent()
+		}
+		if top.Pkg == nil {
+			return nil
+		}
+		return vc.w.chanInvs[top.Pkg.Pkg.Path()+"."+top.RelString(top.Pkg.Pkg)+"."+vname]
+	}
 	fa, ok := u.X.(*ssa.FieldAddr)
 	if !ok {
 		return nil
@@ -1157,12 +1364,12 @@ func (vc *VC) chanInvOf(ch ssa.Value) *InvDef {
 	return vc.w.chanInvs[named.Obj().Pkg().Path()+"."+named.Obj().Name()+"."+fieldName(fa)]
 }
 
-func (vc *VC) chanInvTerm(ci *InvDef, v string, et types.Type, st *State) (string, *Env) {
+func (vc *VC) chanInvTerm(ci *InvDef, chv SVal, v string, et types.Type, st *State) (string, *Env) {
 	env := &Env{vc: vc, cur: st, old: vc.entry, vars: map[string]SVal{}, block: vc.curBlock}
 	if tp, ok := vc.w.tpkgs[ci.Pkg]; ok && tp.Types != nil {
 		env.pkg = tp.Types
 	}
-	r := env.withVars(map[string]SVal{ci.Var: {t: v, typ: et, sort: vc.d.sortOf(et)}}, func() SVal { return env.eval(ci.Body) })
+	r := env.withVars(map[string]SVal{ci.Var: {t: v, typ: et, sort: vc.d.sortOf(et)}, "ch": chv}, func() SVal { return env.eval(ci.Body) })
 	return r.t, env
 }
 
@@ -1196,7 +1403,7 @@ func (vc *VC) chanInvRecv(ch ssa.Value, v string, et types.Type, st *State) {
 			sort.Strings(missing)
 			vc.fail("channel invariant of %s assumed at a receive, but these senders are not checked in this claim: %s", ci.Type, strings.Join(missing, ", "))
 		}
-		f, env := vc.chanInvTerm(ci, v, et, st)
+		f, env := vc.chanInvTerm(ci, SVal{t: vc.val(ch), typ: ch.Type(), sort: "Int"}, v, et, st)
 		env.flushSide(vc.reach[vc.curBlock])
 		vc.assume(f)
 	}
@@ -1205,7 +1412,7 @@ func (vc *VC) chanInvRecv(ch ssa.Value, v string, et types.Type, st *State) {
 func (vc *VC) chanInvSend(ch, x ssa.Value, st *State) {
 	if ci := vc.chanInvOf(ch); ci != nil {
 		et := ch.Type().Underlying().(*types.Chan).Elem()
-		f, env := vc.chanInvTerm(ci, vc.val(x), et, st)
+		f, env := vc.chanInvTerm(ci, SVal{t: vc.val(ch), typ: ch.Type(), sort: "Int"}, vc.val(x), et, st)
 		reach := vc.reach[vc.curBlock]
 		env.flushSide(reach)
 		vc.oblige("chan.send.inv", "", reach, f, "value sent on "+ci.Type+" satisfies the channel invariant")
